@@ -5,6 +5,7 @@ package main
 
 import (
 	"go/token"
+	"strconv"
 	"strings"
 
 	"golang.org/x/tools/go/ssa"
@@ -46,6 +47,8 @@ func checkC08(p *Prog, r *Report) {
 	ruleCtxMergeOrder(p, a, r, "R-C08-ORDER")
 	// "names set by tags shadow context keys" also for a macro parameter the caller omitted: it is bound (to its
 	// default or to nil), so a same-named context key cannot show through
+	ruleC08Steps(p, a, r)
+	ruleC08IndexIsInteger(p, a, r, res)
 	r.Begin("R-C08-MACRO-ANCHORS", "macro body executor found by role", 1)
 	if ma := resolveMacroAnchors(p, a, r); ma != nil {
 		r.Trivial("anchors", "-", "%d macro body executor(s)", len(ma.bodies))
@@ -491,5 +494,117 @@ func ruleC08NoConvert(p *Prog, a *Anchors, r *Report, res *ssa.Function) {
 	}
 	if n == 0 {
 		r.OK("resolve:no-conversion", p.Pos(res.Pos()), "0 reflect conversions in the resolver and its helpers")
+	}
+}
+
+// ruleC08Steps: in the variable-name parser every kind of step (.name, .0, [expr], (args)) can be followed by further
+// steps: after a step has been added the parser goes back to the head of its loop. (Sibling cross-check: a branch
+// that falls out of the loop instead makes `a[1].b` a syntax error while `a.1.b` works.)
+func ruleC08Steps(p *Prog, a *Anchors, r *Report) {
+	r.Begin("R-C08-STEPS", "the variable-name parser returns to its loop head after every step it adds, whatever the step's form: any step can be followed by another", 3)
+	var parser *ssa.Function
+	for _, f := range p.Funcs {
+		if !p.InPkg(f) || f.Blocks == nil || f.Signature.Recv() == nil {
+			continue
+		}
+		if n := structOf(f.Signature.Recv().Type()); n == nil || n.Obj().Name() != "Parser" {
+			continue
+		}
+		// the function that appends to variableResolver.parts inside a loop
+		stores := 0
+		for _, b := range f.Blocks {
+			for _, in := range b.Instrs {
+				if st, ok := in.(*ssa.Store); ok && isFieldAddrOf(st.Addr, "variableResolver", "parts") {
+					stores++
+				}
+			}
+		}
+		if stores >= 3 {
+			parser = f
+		}
+	}
+	if parser == nil {
+		r.Unk("anchor", "-", "anchor unresolved: the parser function that builds variableResolver.parts")
+		return
+	}
+	name := p.FuncName(parser)
+	cnt := 0
+	for _, b := range parser.Blocks {
+		for i, in := range b.Instrs {
+			isStep := false
+			what := ""
+			if st, ok := in.(*ssa.Store); ok && isFieldAddrOf(st.Addr, "variableResolver", "parts") {
+				isStep, what = true, "step added"
+			}
+			if st, ok := in.(*ssa.Store); ok && isFieldAddrOf(st.Addr, "variablePart", "isFunctionCall") {
+				isStep, what = true, "call step"
+			}
+			if !isStep {
+				continue
+			}
+			// innermost loop header dominating the store whose loop contains it
+			var hdr *ssa.BasicBlock
+			for _, h := range parser.Blocks {
+				if !h.Dominates(b) || !ReachableBlocks(b)[h] {
+					continue
+				}
+				back := false
+				for _, pr := range h.Preds {
+					if h.Dominates(pr) {
+						back = true
+					}
+				}
+				if back && (hdr == nil || h.Dominates(hdr)) {
+					hdr = h // outermost: the step loop (argument lists have their own inner loop)
+				}
+			}
+			if hdr == nil {
+				continue // the first part, parsed before the loop
+			}
+			cnt++
+			key := name + ":" + what
+			if cnt > 1 {
+				key += "#" + strconv.Itoa(cnt)
+			}
+			ok := true
+			first := hdr.Instrs[0]
+			for _, ret := range successReturns(parser) {
+				if !MustPassFrom(b, i+1, ret, func(x ssa.Instruction) bool { return x == first }) {
+					ok = false
+				}
+			}
+			if ok {
+				r.OK(key, p.InstrPos(in), "the parser returns to its loop head: another step may follow")
+			} else {
+				r.Bad(key, p.InstrPos(in), "after this step the parser can leave its loop without looking for a further step: a name that continues behind it (a[1].b, m[k][j], f[x](y)) is a syntax error although the same path written with dots works")
+			}
+		}
+	}
+}
+
+// ruleC08IndexIsInteger: a subscript expression used as a list index went through Value.Integer(), which answers 0 for
+// anything it cannot convert; it must have been shown to be an integer, or l["foo"] silently means l[0].
+func ruleC08IndexIsInteger(p *Prog, a *Anchors, r *Report, res *ssa.Function) {
+	r.Begin("R-C08-INTIDX", "a computed list index is the Integer() of a value that IsInteger() held for: a non-number subscript is not turned into index 0", 1)
+	for _, c := range reflectCallsIn(p, res, "Index") {
+		idx := c.Common().Args[1]
+		ic, ok := stripConv(idx).(*ssa.Call)
+		if !ok || ic.Common().StaticCallee() == nil || ic.Common().StaticCallee().Name() != "Integer" || !p.InPkg(ic.Common().StaticCallee()) {
+			continue // a parse-time integer (a.1)
+		}
+		src := ic.Common().Args[0]
+		g := Guarded(c, func(cond ssa.Value, pol bool) bool {
+			cc, ok := cond.(*ssa.Call)
+			if !ok || cc.Common().StaticCallee() == nil || !pol {
+				return false
+			}
+			n := cc.Common().StaticCallee().Name()
+			return (n == "IsInteger" || n == "IsNumber") && p.VN(cc.Common().Args[0]) == p.VN(src)
+		})
+		if g {
+			r.OK("resolve:Index:integer", p.InstrPos(c), "the subscript was shown to be a number before Integer() is used as the index")
+		} else {
+			r.Bad("resolve:Index:integer", p.InstrPos(c), "the index is %s without an IsInteger() test: Integer() yields 0 for nil, strings and everything else it cannot convert, so such a subscript silently selects the first element", p.VN(idx))
+		}
 	}
 }
